@@ -89,9 +89,17 @@ def run_case(mod, seed: int, params: dict, replay: list | None = None, keep_labe
                 out.update(status="harness_error", message=f"StepLimit {e}")
         except WallTimeout:
             tb = sys.exc_info()[2]
-            fr = core.repo_frame_of(tb)
-            innermost = traceback.extract_tb(tb)[-1]
-            if fr is not None and "/streamflow/" in innermost.filename and "/verif/" not in innermost.filename:
+            if getattr(mod, "WALL_TIMEOUT", "classify") == "undecided":
+                # checks whose runs spawn hundreds of real processes: running out of wall-clock on a loaded machine says
+                # nothing about the code under test; the run is counted, not decided (never a violation, never success evidence)
+                sim.probe("wall_timeout_undecided")
+                out.update(status="ok", nontrivial=False, sample=None)
+                tb = None
+            fr = core.repo_frame_of(tb) if tb is not None else None
+            innermost = traceback.extract_tb(tb)[-1] if tb is not None else None
+            if tb is None:
+                pass
+            elif fr is not None and "/streamflow/" in innermost.filename and "/verif/" not in innermost.filename:
                 out.update(status="violation", klass="spin", signature=f"spin:{fr}",
                            message=f"non-yielding loop at {fr} (wall cap {sim.wall_cap}s)",
                            details="".join(traceback.format_tb(tb)[-6:]))
